@@ -37,6 +37,12 @@ inline std::string norm_id(const NormShape& s, const char* cfg) {
 }
 inline int64_t norm_value(const NormShape& s, uint64_t e) {
   if (s.dataset == 0) return probe62(e);
+  if (s.dataset == 2) {  // structured limbs: all zero / all multiples of 2^32 / probes, by limb index
+    uint64_t limb = e / s.asl;
+    if (limb % 3 == 0) return 0;
+    if (limb % 3 == 1) return (probe62(e) >> 32) * (INT64_C(1) << 32);
+    return probe62(e);
+  }
   // digit-boundary values: +-2^(k-1), +-(2^(k-1)-1), +-2^k ...
   int64_t h = INT64_C(1) << (s.k - 1);
   int64_t tab[8] = {h, -h, h - 1, -h - 1, 2 * h - 1, -2 * h, h + 1, -(h - 1)};
@@ -104,7 +110,8 @@ inline ApiCase gen_dft(const MODULE* mod, MODULE_TYPE t, DftShape s, const char*
     size_t ae = limbvec_elems(N, s.as, s.asl);
     int ia = c.add("a", R_IN, ae * 8);
     // limb 1 (when present, FFT64): every coefficient a non-zero multiple of 2^32 (a plaintext scaled by a power of two)
-    for (size_t e = 0; e < ae; ++e) { int64_t v = dft_in_value(t, e); if (t == FFT64 && e / s.asl == 1 && e % s.asl < N) v = ((int64_t)(e % 7) + 1) * ((e & 1) ? -1 : 1) * (INT64_C(1) << 32); put_i64(c.bufs[ia].init, e, v); }
+    for (size_t e = 0; e < ae; ++e) { int64_t v = dft_in_value(t, e); if (t == FFT64 && e / s.asl == 1 && e % s.asl < N) v = ((int64_t)(e % 7) + 1) * ((e & 1) ? -1 : 1) * (INT64_C(1) << 32);
+      if (t == NTT120 && e / s.asl == 1 && e % s.asl < N) v = (v >> 32) * (INT64_C(1) << 32); put_i64(c.bufs[ia].init, e, v); }
     Buf& R = c.bufs[ir];
     size_t lb = dft_bytes(t, N, 1);
     for (uint64_t i = 0; i < s.rs; ++i) memset(&R.mask[i * lb], i < smin ? 2 : 1, lb);  // limbs >= smin: exactly zero
